@@ -434,6 +434,20 @@ def r09d(ck, prog):
                                          a.text(), pnames[i], callee), prog.config)
         if callee != "kalign" and ncalls == 0:
             raise AnalysisBroken("R09d: no call to %s found" % callee)
+    # (iv) the selected values are not rewritten on the way down
+    for fname in ("kalign", "kalign_run"):
+        Fn = prog.fn(fname)
+        for pr in Fn.params:
+            if pr["name"] not in ("type", "gpo", "gpe", "tgpe"):
+                continue
+            for r in Fn.body.refs(did=pr["did"]):
+                from ..model import access_mode
+                if access_mode(r) in ("write", "rmw", "addr"):
+                    ck.violation("R09d", "R09d/%s/%s-rewritten" % (fname, pr["name"]), site(prog, r),
+                                 "%s modifies its parameter %s before handing it on: the caller's selection is not what is used" % (
+                                     fname, pr["name"]), prog.config)
+            cnt += 1
+            ck.inst("R09d", site(prog, Fn, pr["name"]), "%s passes %s on unmodified" % (fname, pr["name"]), prog.config)
     ck.floor("R09d", cnt, 14, "plumbing sites")
 
 
